@@ -39,7 +39,7 @@ def wrap(pv, r):
 
 
 def sk(t):
-    return re.sub(r'#[0-9.]+', '', show(t))
+    return re.sub(r'#\d+\.\d+', '', show(t))
 
 
 def check_dispatch_table(facts, rep, cmd, int_ty='i64'):
